@@ -438,10 +438,11 @@ def c07_structure(R):
             ok, det = True, "refused"
         R.check(f"C07.types.non-scalar[{label}]", GW + "::_ConvertType", ok, detail=det)
     # module structure after generating k functions
+    NAMES = ["fn0", "@fn0->int`int", "@fn0->int`float"]
     for k in (1, 2, 3):
         m = ir.Module()
         for j in range(k):
-            f = m.CreateFunction(f"fn{j}", ir.FunctionType(ir.IntegerType(), collections.OrderedDict([("a", ir.IntegerType())] * 1)))
+            f = m.CreateFunction(NAMES[j], ir.FunctionType(ir.IntegerType(), collections.OrderedDict([("a", ir.IntegerType())] * 1)))
             bb = f.CreateBasicBlock()
             ld = bb.AddInstruction(ir.VariableAccessInstruction(ir.IntegerType(), 0, ir.VariableAccessScope.FUNCTION_ARGUMENT))
             bb.AddInstruction(ir.ReturnInstruction(ld))
@@ -454,7 +455,7 @@ def c07_structure(R):
             codes = getpriv(getpriv(mod, "Module", "__codesec"), "CodeSection", "__code")
             exports = getpriv(getpriv(mod, "Module", "__exportsec"), "ExportSection", "__exports")
             exp = [(getpriv(e, "Export", "__name"), getpriv(e, "Export", "__index")) for e in exports]
-            ok = len(funcs) == k and len(codes) == k and all(0 <= t < len(types) for t in funcs) and exp == [(f"fn{j}", j) for j in range(k)]
+            ok = len(funcs) == k and len(codes) == k and all(0 <= t < len(types) for t in funcs) and exp == [(NAMES[j], j) for j in range(k)] and len({n for n, _ in exp}) == k
             det = f"{k} function(s): {len(types)} types, function section {list(funcs)}, {len(codes)} bodies, exports {exp}"
         except Exception as e:
             ok, det = False, f"raised {type(e).__name__}: {e}"
@@ -463,7 +464,7 @@ def c07_structure(R):
                     import io, contextlib
                     from nsl import Compiler
                     import wasmtime
-                    src = 'export function f(int a, int b) -> int { return (a + b); }'
+                    src = {{src}}
                     with contextlib.redirect_stdout(io.StringIO()):
                         r = Compiler.Compiler().Compile(src, {'wasm': True})
                     out = io.BytesIO(); r.WasmModule.WriteTo(out)
@@ -471,7 +472,49 @@ def c07_structure(R):
                         wasmtime.Module.validate(wasmtime.Engine(), out.getvalue()); print('valid')
                     except Exception as e:
                         print(src); print('wasmtime rejects the emitted module:', str(e)[:200]); print('REPLAY-CONFIRMED')
-                    """))
+                    """, src="export function f(int a, int b) -> int { return (a + b); }" if k == 1 else
+                    "function g(int a) -> int { return (a + 1); }\nfunction g(float a) -> float { return (a + a); }\nexport function f(int a, int b) -> int { return (a + b); }"))
+    # writers are read-only: writing a module twice gives the same bytes and leaves every object as it was
+    import io as _io
+    c = w.Code()
+    c.AddLocal(w.Local(VT.i32))
+    c.AddLocal(w.Local(VT.f32))
+    c.AddInstruction(w.Instruction(w.opcodes["local.get"], (0,)))
+    c.AddInstruction(w.Instruction(w.opcodes["return"]))
+    n_ins = len(getpriv(c, "Code", "__instructions"))
+    b1 = bytes(c.Encode())
+    b2 = bytes(c.Encode())
+    R.check("C07.writers.read-only[Code.Encode]", WA + "::Code.Encode", b1 == b2 and len(getpriv(c, "Code", "__instructions")) == n_ins and b1.endswith(b"\x0b") and not b1.endswith(b"\x0b\x0b"),
+            detail=f"encoding a body twice: {b1.hex()} then {b2.hex()}; instruction count {n_ins} -> {len(getpriv(c, 'Code', '__instructions'))}")
+    mod = w.Module()
+    ti = mod.AddFunctionType(w.FunctionType([VT.i32], [VT.i32]))
+    mod.AddFunction(ti)
+    mod.AddExport(w.Export(0, "f"))
+    mod.AddCode(c)
+    mod.AddTable(w.Table(0))
+    o1, o2 = _io.BytesIO(), _io.BytesIO()
+    mod.WriteTo(o1)
+    mod.WriteTo(o2)
+    R.check("C07.writers.read-only[Module.WriteTo]", WA + "::Module.WriteTo", o1.getvalue() == o2.getvalue(), detail=f"writing the same module twice gives different bytes ({len(o1.getvalue())} vs {len(o2.getvalue())})",
+            replay=script("""
+                import io, contextlib
+                from nsl import Compiler
+                import wasmtime
+                src = 'export function f(int a, int b) -> int { return (a + b); }'
+                with contextlib.redirect_stdout(io.StringIO()):
+                    r = Compiler.Compiler().Compile(src, {'wasm': True})
+                outs = []
+                for _ in range(3):
+                    o = io.BytesIO(); r.WasmModule.WriteTo(o); outs.append(o.getvalue())
+                ok = True
+                for k, d in enumerate(outs):
+                    try:
+                        wasmtime.Module.validate(wasmtime.Engine(), d)
+                    except Exception as e:
+                        ok = False; print('emission', k + 1, 'invalid:', str(e)[:120])
+                print('sizes of three emissions of one compiled module:', [len(d) for d in outs])
+                if not ok or len(set(outs)) != 1: print('REPLAY-CONFIRMED')
+                """))
     # section order / preamble: cut the section writers by recorders
     mod = w.Module()
     order = []
